@@ -126,6 +126,8 @@ pub fn record_tree_violation(
             "mismatch": small_m.describe(),
             "text": small_text,
             "table": table_desc(table),
+            "expected_variables": expect(&small, table).vars,
+            "expected_term_mod_AC": format!("{:?}", expect(&small, table).norm),
             "original_text": text,
             "original_path": path,
             "original_mismatch": m.describe().chars().take(300).collect::<String>(),
